@@ -174,6 +174,10 @@ def write_transform(rng, work, sim_ok, ext):
         form = (np.savetxt(path, M, fmt="%d"), "txt(integers)")[1] if whole else "txt/" + gen.save_matrix_text(rng, path, M)
     else:
         q = rm.quat_wxyz_from_rot(R)
+        if rng.random() < .35:
+            q = np.round(q, int(rng.integers(3, 6)))  # hand-written: rounded components (rotation of the normalised quaternion)
+            if not np.any(q):
+                q = np.array([1.0, 0.0, 0.0, 0.0])
         d = {"x": float(t[0]), "y": float(t[1]), "z": float(t[2]), "qw": float(q[0]), "qx": float(q[1]),
              "qy": float(q[2]), "qz": float(q[3])}
         if s != 1.0:
